@@ -183,6 +183,7 @@ EXPR_ROWS = {
     "float/named2": ([["e", "nan"], ["2", "+inf"]], [[2.0, 1.5], [2.0, 0.75]]),
     "complex/named": ([["inf", "2j"], ["nan", "1"]], [[0.75, 2j], [1.5, 1]]),
     "int/named": ([["tau", "2"], ["-tau", "big"]], [[3, 2], [-3, 9007199254740993]]),
+    "int/big-mixed": ([["9007199254740993", "14/2", "3"], ["2**3", "-9007199254740993", "6/3"]], [[9007199254740993, 7, 3], [8, -9007199254740993, 2]]),
     "int/big": ([["9007199254740993", "-9223372036854775807"], ["4611686018427387905", "1"]], [[9007199254740993, -9223372036854775807], [4611686018427387905, 1]]),
 }
 
@@ -303,7 +304,41 @@ def nameroles_case(c):
     return None
 
 
-FAMILIES = {"nameroles": nameroles_case, "arrayexpr": arrayexpr_case, "exprarray": exprarray_case, "scalar": scalar_case, "array": array_case, "ragged": ragged_case, "index": index_case, "whole": whole_array_param_case}
+def repeated_params_case(c):
+    import sympy as sym
+    """the same template parameter written at several positions of one array, other parameters in between"""
+    t, r, cc, pattern = c
+    n = r * cc
+    names = {"a": "pa", "b": "pb", "c": "pc"}
+    rows = []
+    want = []
+    for i in range(r):
+        row = []
+        for j in range(cc):
+            ch = pattern[(i * cc + j) % len(pattern)]
+            row.append("{%s}" % names[ch] if ch in names else VALS[t](i * cc + j))
+            want.append(names.get(ch))
+        rows.append(", ".join(row))
+    text = H + "%s array A =\n" % t + "".join("    " + x + "\n" for x in rows) + "G(A) | 0\n"
+    p, e = _load(text)
+    if e is not None:
+        return ("C05/array-rejected-valid-with-repeated-params", common.exc_sig(e) + " ;; " + " / ".join(rows))
+    A = p.variables.get("A")
+    if observe.kind(A) != "a" or A.shape != (r, cc):
+        return ("C05/array-shape", "repeated parameters: shape %r, written %r" % (getattr(A, "shape", None), (r, cc)))
+    for k, w in enumerate(want):
+        got = A[k // cc, k % cc]
+        if w is not None:
+            if not (isinstance(got, sym.Expr) and got == sym.Symbol(w)):
+                return ("C05/array-layout-repeated-params", "A[%d,%d] is %r, written {%s}; rows %s -> %r" % (k // cc, k % cc, got, w, " / ".join(rows), A.tolist()))
+        elif isinstance(got, sym.Expr) or not observe.veq(complex(got), complex(PYV[t](k)), 0):
+            return ("C05/array-layout-repeated-params", "A[%d,%d] is %r, written %s; rows %s -> %r" % (k // cc, k % cc, got, VALS[t](k), " / ".join(rows), A.tolist()))
+    if set(p.parameters) != {names[ch] for ch in pattern if ch in names}:
+        return ("C05/array-parameters", "parameters %r for rows %s" % (sorted(p.parameters), " / ".join(rows)))
+    return None
+
+
+FAMILIES = {"repeated": repeated_params_case, "nameroles": nameroles_case, "arrayexpr": arrayexpr_case, "exprarray": exprarray_case, "scalar": scalar_case, "array": array_case, "ragged": ragged_case, "index": index_case, "whole": whole_array_param_case}
 
 
 @common.guarded("C05")
@@ -348,6 +383,9 @@ def build(ctx):
     for t in EXPR_ROWS:
         for tr in (False, True):
             cases.append(("exprarray", (t, tr)))
+    for t in VALS:
+        for (r, c), pattern in itertools.product(((1, 4), (2, 2), (2, 3), (3, 2)), ("aba1", "ab1a", "a1a", "aab", "abab", "a1ba", "abca", "1aa", "abcab1")):
+            cases.append(("repeated", (t, r, c, pattern)))
     for n_ in (2, 3):
         for roles in itertools.product(ROLES, repeat=n_):
             if len(set(roles)) == 1 and roles[0] in ("param", "keyword"):
